@@ -20,6 +20,13 @@ wall-clock expiry):
   sharded_ignore_error  workers started with ignore_error=True, one record of one
                         shard raises: only that record may be missing.
 
+Application errors are drawn from a family (ValueError, a user exception carrying an
+attribute `code` in {0, 3, 4, 'x'}, xml ParseError of malformed documents with expat codes
+4 / 7 / 3, OSError with an errno): what the application raises is its own object, it may
+carry any attribute.  In the sharded abort cases it travels pickled inside a batch; the
+retry budget of those cases is small, so that a shard that is re-run although its error is
+deterministic ends the case (verdict from the calls seen by the transport, never from time).
+
 Scenario 'sharded_final_reply_death': a worker dies right AFTER it has served the
 last reply of a shard (the reply that carries the end marker): the reply reaches
 the driver, the death (exit with its alive=False notice, or an abrupt kill) is
@@ -54,7 +61,11 @@ RULE = (
     'outputs costing 2-10 ms each to un-pickle, a non-last worker exits (alive=False notice) or is killed '
     '0-8 ms after its first reply carrying an end marker left, that reply held back 0-5 ms. Non-trivial = '
     'the plan has >= 1 fault that actually hit an executed call; distinct = hash of (driver, sizes, '
-    'plan)')
+    'plan). Application errors (as_completed / run task, failing record of an iterate_abort or '
+    'sharded_ignore_error shard) are drawn from the family {ValueError, user exception with code 0/3/4/x, '
+    'ParseError invalid-token (code 4) / mismatched-tag (7) / no-element (3), OSError errno 2/4/5}; one '
+    'iterate_abort case per chunk takes the member (chunk + seed) mod 11, retry_threshold 1-5 for '
+    'iterate_abort cases with a failing record')
 ASSUMPTIONS = [
     'transport stand-in semantics (see C14): a deadline completes the client future with code 4 while the handler may still run and take effect (at-most-once is not provided)',
     f'the library clock is dilated by S={SCALE:g} (time.time x S, sleep / S, transport deadlines / S); call_timeout={CALL_TIMEOUT:g}s and heartbeat_threshold={HB_THRESHOLD:g}s library time keep the shipped ordering interval < deadline < threshold',
@@ -64,6 +75,8 @@ ASSUMPTIONS = [
     'abort scenarios: a worker counts as permanently blocked only if, after the driver returned / raised and every transport call to the pool has returned, its client still lists a pending state (nothing can complete it: the driver closed its event loop); a pool counts as permanently holding workers only if the runner stopped its event loop while the remote stage still waits for coroutine futures of that loop. Anything that merely has not happened yet when the watchdog expires is inconclusive',
     'sharded_ignore_error: a server started with ignore_error=True skips the failing record only (what iterate(ignore_error=True) does in process): every other batch is delivered and aggregated; a run that raises the application error instead is accepted too',
     'iterate_abort: after an abort the failing shard is not retried (application errors are not retriable); outputs delivered before the abort must be batches of the reference run',
+    'application errors never are TimeoutError instances (OSError(ETIMEDOUT) is one): the workers themselves answer with TimeoutError objects to ask for a retry of the shard, such an error of the application is indistinguishable by design',
+    'iterate_abort with a failing record: retry_threshold 1-5; the budget counts as exhausted legitimately (inconclusive, load) when the transport itself completed >= 1 data-plane call of the case with DEADLINE_EXCEEDED; with none, TimeoutError(Too many Timeouts) / a shard initialised more often than (shards + transport deadlines) is the application error taken for a timeout',
   'sharded_final_reply_death: the final reply of the shard is delivered (it had left the worker before the death); the exiting worker notice is the pushed heartbeat(alive=False), modelled as in exit_notice by unregistering the address; the un-pickling cost of an output is a real sleep inside its __reduce__ target on the un-pickling thread; which of (notice seen first / reply processed first) happens is left to the OS scheduler, both orders must give the fault-free aggregate',
 ]
 REQUIRED = ['as_completed_cases', 'run_cases', 'sharded_cases', 'late_death_cases', 'no_deadline_cases', 'faults_hit', 'rejoin_cases', 'rejoin_phase2_cases',
@@ -71,7 +84,9 @@ REQUIRED = ['as_completed_cases', 'run_cases', 'sharded_cases', 'late_death_case
             'iterate_abort_cases', 'iterate_abort_other_shard_in_flight', 'iterate_abort_capacity_checks',
             'interleaved_cases', 'interleaved_failure_cases', 'interleaved_fault_free_cases',
             'interleaved_failure_remote_stage_busy', 'ignore_error_cases',
-            'final_reply_death_cases', 'final_reply_deaths_hit']
+            'final_reply_death_cases', 'final_reply_deaths_hit',
+            'app_error_family_cases', 'app_error_code4_in_batch_cases', 'app_error_other_attr_in_batch_cases',
+            'run_app_error_cases']
 # Mechanism keys of the audited root causes (classified by the scenario of the case).
 K_ITER_ABORT = 'iterate-abort-leaks-capacity-placeholder'
 K_INTERLEAVED = 'interleaved-failure-leaves-workers-acquired'
@@ -79,6 +94,10 @@ K_IGNORE_TRUNC = 'ignore-error-server-truncates-shard-after-application-error'
 # WorkerPool.iterate() retries the shard of a worker it sees dead while the shard's
 # coroutine already holds the last reply and delivers the shard's state: merged twice
 K_LAST_REPLY = 'dead-worker-last-reply-state-delivered-and-shard-retried'
+# WorkerPool.iterate() looks at `.code` of the exception of a finished shard task, which is
+# the application's own exception object (it travelled pickled inside a batch): code == 4
+# is taken for DEADLINE_EXCEEDED and the shard is re-run for the whole retry budget
+K_CODE4 = 'application-error-with-code-4-retried-as-timeout'
 CHUNK_TIMEOUT_S = {'quick': 500, 'thorough': 3400}
 FAULT_KINDS = ['lost_request', 'lost_reply', 'slow', 'die_before', 'die_after', 'restart']
 
@@ -98,8 +117,17 @@ def all_single_faults(W):
   return out
 
 
-def gen_cases(rng, n):
-  """Deterministic case list for one chunk index (strided over the space)."""
+def draw_exc(rng_exc):
+  from vlib import c06lib
+  return dict(rng_exc.choice(c06lib.EXC_FAMILY))
+
+
+def gen_cases(rng, n, rng_exc=None):
+  """Deterministic case list for one chunk index (strided over the space).
+
+  rng_exc (own stream: the draws of `rng` stay what they were) draws the exception of
+  the application errors and the failing task of WorkerPool.run cases.
+  """
   cases = []
   for _ in range(n):
     driver = rng.choice(['as_completed', 'as_completed', 'sharded', 'run'])
@@ -119,9 +147,14 @@ def gen_cases(rng, n):
       case['T'] = rng.randint(1, 8)
       case['app_error'] = rng.choice([None, None, None, rng.randrange(case['T'])])
       case['ignore_failures'] = bool(case['app_error'] is not None and rng.random() < 0.3)
+      if rng_exc is not None and case['app_error'] is not None:
+        case['exc'] = draw_exc(rng_exc)
     elif driver == 'run':
       case['T'] = rng.randint(1, 3)
       case['faults'] = [f for f in faults if f[2] in ('slow',)][:1]
+      if rng_exc is not None and rng_exc.random() < 0.3:
+        case['app_error'] = rng_exc.randrange(case['T'])
+        case['exc'] = draw_exc(rng_exc)
     else:
       case['K'] = rng.randint(1, 6)
       case['n'] = rng.choice([0, 3, 9, 17, 30])
@@ -254,8 +287,13 @@ def run_as_completed(ctx, runner, case):
     pool.wait_until_alive(deadline_secs=HB_THRESHOLD, minimum_num_workers=case['W'])
     hits = runner.install_plan(raw_list, case['faults'], servers)
     T = case['T']
-    tasks = [lazy_fns.trace(c16lib.task_fn)(
-        i, fail='value' if case.get('app_error') == i else None) for i in range(T)]
+    if case.get('exc') is not None:
+      from vlib import c06lib
+      tasks = [lazy_fns.trace(c06lib.task_fn)(
+          i, exc=case['exc'] if case.get('app_error') == i else None) for i in range(T)]
+    else:
+      tasks = [lazy_fns.trace(c16lib.task_fn)(
+          i, fail='value' if case.get('app_error') == i else None) for i in range(T)]
     delivered, error = [], None
 
     def go():
@@ -286,7 +324,12 @@ def run_pool_run(ctx, runner, case):
 
     def go():
       for i in range(case['T']):
-        delivered.append(pool.run(lazy_fns.trace(c16lib.task_fn)(i)))
+        if case.get('exc') is not None:
+          from vlib import c06lib
+          delivered.append(pool.run(lazy_fns.trace(c06lib.task_fn)(
+              i, exc=case['exc'] if case.get('app_error') == i else None)))
+        else:
+          delivered.append(pool.run(lazy_fns.trace(c16lib.task_fn)(i)))
 
     finished, _, exc = runner.cwork.run_with_watchdog(go, 60)
     return {'finished': finished, 'exc': exc, 'delivered': delivered, 'hits': hits,
@@ -328,8 +371,13 @@ def run_sharded(ctx, runner, case):
       while not rq.empty():
         aggs.append(rq.get_nowait())
     ref_outs, ref_agg = c16lib.reference(spec)
+    # transport log (never a clock): calls the stand-in ended itself with DEADLINE_EXCEEDED
+    n_deadline = sum(1 for ev in list(runner.courier.sim.call_log)
+                     if ev.get('ev') == 'return' and ev.get('outcome') == 'error4'
+                     and ev.get('method') != 'heartbeat' and ev.get('server') in set(raw_list) | set(addrs))
     return {'finished': finished, 'exc': exc, 'outs': outs, 'aggs': aggs,
             'ref_outs': ref_outs, 'ref_agg': ref_agg, 'hits': hits,
+            'transport_deadlines': n_deadline,
             'acquired': len(pool.acquired_workers),
             'locked': sum(1 for w in pool.all_workers if w.is_locked()),
             'last_healthy': _healthy_last_worker(runner, raw_list[-1])}
@@ -459,8 +507,13 @@ def run_sharded_final_reply_death(ctx, runner, case):
     sim.reply_delay = None
     aggs = _collect_aggs(rq, finished, exc)
     ref_outs, ref_agg = c16lib.reference(spec)
+    # transport log (never a clock): calls the stand-in ended itself with DEADLINE_EXCEEDED
+    n_deadline = sum(1 for ev in list(runner.courier.sim.call_log)
+                     if ev.get('ev') == 'return' and ev.get('outcome') == 'error4'
+                     and ev.get('method') != 'heartbeat' and ev.get('server') in set(raw_list) | set(addrs))
     return {'finished': finished, 'exc': exc, 'outs': outs, 'aggs': aggs,
             'ref_outs': ref_outs, 'ref_agg': ref_agg, 'hits': hits,
+            'transport_deadlines': n_deadline,
             'acquired': len(pool.acquired_workers),
             'locked': sum(1 for w in pool.all_workers if w.is_locked()),
             'last_healthy': _healthy_last_worker(runner, raw_list[-1])}
@@ -577,10 +630,19 @@ def run_iterate_abort(ctx, runner, case):
   raw_list = [raw[a] for a in addrs]
   ops = [['slow', {'delay': case['delay']}], ['affine', {'a': 3, 'b': 1}]]
   fail = case['fail']
-  if fail['kind'] == 'op':
-    ops.append(['failing', {'value': 3 * fail['value'] + 1}])
+  if fail['kind'] == 'op' and fail.get('site') != 'source':
+    kw = {'value': 3 * fail['value'] + 1}
+    if fail.get('exc') is not None:
+      kw['exc'] = fail['exc']
+    ops.append(['failing', kw])
   spec = {'n': case['n'], 'rec': case['rec'], 'ops': ops, 'agg': 'sum', 'fused': True,
           'num_threads': 0}
+  if fail['kind'] == 'op' and fail.get('site') == 'source':
+    # the data source fails while it reads the record that holds element `value`
+    spec['fail_source'] = {'record': fail['value'] // case['rec'], 'exc': fail.get('exc')}
+  run_kwargs = {}
+  if case.get('retry_threshold') is not None:
+    run_kwargs['retry_threshold'] = case['retry_threshold']
   spec2 = {'n': case['n2'], 'rec': case['rec'], 'ops': [['affine', {'a': 3, 'b': 1}]],
            'agg': 'sum', 'fused': True, 'num_threads': 0}
   try:
@@ -591,13 +653,18 @@ def run_iterate_abort(ctx, runner, case):
 
     def go():
       for b in orchestrate.sharded_pipelines_as_iterator(
-          pool, c06lib.define_pipeline, spec, num_shards=case['K'], result_queue=rq):
+          pool, c06lib.define_pipeline, spec, num_shards=case['K'], result_queue=rq, **run_kwargs):
         outs.append(b)
 
     finished, _, exc = runner.cwork.run_with_watchdog(go, 60)
     runner.clear_plan()
+    # what the transport saw (never a clock): shards initialised, calls that it ended itself
+    # with DEADLINE_EXCEEDED, workers still registered
+    n_init, n_deadline = c06lib.transport_call_stats(set(addrs))
     ref_outs, _ = c16lib.reference(dict(spec, ops=ops[:2]))
     res = {'finished': finished, 'exc': exc, 'outs': list(outs), 'ref_outs': ref_outs,
+           'init_generator_calls': n_init, 'transport_deadlines': n_deadline,
+           'all_workers_healthy': all(runner.courier.sim.lookup(a) is not None for a in raw_list),
            'hits': hits, 'acquired': len(pool.acquired_workers),
            'locked': sum(1 for w in pool.all_workers if w.is_locked()),
            'workers': [], 'phase2': []}
@@ -655,8 +722,37 @@ def judge_iterate_abort(ctx, case, res):
   if in_flight:
     ctx.count('iterate_abort_other_shard_in_flight')
   ctx.case(('iterate_abort', dict(case)), in_flight)
+  fail = case['fail']
+  exc_spec = fail.get('exc') if fail['kind'] == 'op' else None
+  marks = [c06lib.APP_ERROR_MARK, 'op_failing', 'injected app error']
+  code4 = False
+  if exc_spec is not None:
+    # input class: what the generator put in (the exception object of the failing record and
+    # where it is raised: by the data source, whose exception object travels inside a batch
+    # as it is, or by an op, whose exception the library replaces by 'Failed to call <fn>')
+    ctx.count('app_error_family_cases')
+    if fail.get('site') == 'source':
+      attr = c06lib.app_error_code_attr(exc_spec)
+      code4 = attr is not None and not isinstance(attr, str) and attr == 4
+      ctx.count('app_error_code4_in_batch_cases' if code4 else 'app_error_other_attr_in_batch_cases')
+      marks = c06lib.app_error_marks(exc_spec, f'record {fail["value"] // case["rec"]} cannot be read')
+  rerun = {'init_generator_calls': res.get('init_generator_calls'), 'shards': case['K'],
+           'calls_ended_by_a_transport_deadline': res.get('transport_deadlines'),
+           'retry_threshold': case.get('retry_threshold'),
+           'application_error': c06lib.app_error_key(exc_spec) if exc_spec is not None else None}
   if not res['finished']:
-    ctx.inconclusive_case('iterate_abort: phase 1 watchdog', case)
+    # Shards initialised again and again although the transport ended no call itself, every
+    # worker is up and no worker runs two shards (with max_parallelism 2 a second
+    # init_generator on a worker legitimately sends the first shard back for a retry).
+    if (exc_spec is not None and res.get('transport_deadlines') == 0
+        and res.get('all_workers_healthy') and case.get('par', 1) == 1
+        and (res.get('init_generator_calls') or 0) > case['K'] + 10):
+      # the driver is still re-running the shard of a deterministic application error
+      ctx.violation('app_error_never_surfaces_shard_rerun', case, rerun,
+                    mechanism=K_CODE4 if code4 else
+                    'iterate_abort:app-error-shard-rerun:' + c06lib.app_error_key(exc_spec))
+    else:
+      ctx.inconclusive_case('iterate_abort: phase 1 watchdog', case)
     return
   exc = res['exc']
   text = c06lib.error_chain_text(exc) if exc is not None else ''
@@ -670,7 +766,21 @@ def judge_iterate_abort(ctx, case, res):
   if 'All workers timeout' in text:
     ctx.inconclusive_case('library saw no alive worker (load)', case)
     return
-  if not any(m in text for m in (c06lib.APP_ERROR_MARK, 'op_failing', 'injected app error')):
+  if exc_spec is not None and isinstance(exc, TimeoutError) and 'Too many Timeouts' in str(exc):
+    # a deterministic application error reported as an exhausted timeout budget
+    # 'Too many Timeouts: n > t, last error: <args[0] of the last exception counted as a timeout>'
+    last = str(exc).rsplit('last error:', 1)[-1]
+    last_is_the_application_error = any(m in last for m in marks) or (
+        exc_spec.get('type') == 'oserror' and last.strip() == str(exc_spec['errno']))
+    if not last_is_the_application_error:
+      # the budget went to other retries (deadlines under load; a worker with max_parallelism 2
+      # that was given a second shard): outside the premise of the property
+      ctx.inconclusive_case('iterate_abort: the small retry budget was used up by retries that are not the application error', case)
+      return
+    ctx.violation('app_error_reported_as_too_many_timeouts', case, dict(rerun, error=text[:300]),
+                  mechanism=K_CODE4 if code4 else
+                  'iterate_abort:app-error-reported-as-timeouts:' + c06lib.app_error_key(exc_spec))
+  elif not any(m in text for m in marks):
     ctx.violation('app_error_wrong_exception', case, {'error': text[:400]},
                   mechanism=f'iterate_abort:app-error-other-exception:{type(exc).__name__}')
   ctx.count('release_checks')
@@ -715,7 +825,11 @@ def judge_iterate_abort(ctx, case, res):
     want2 = sorted(repr(list(b)) for b in p2['ref_outs'])
     got2 = sorted(repr(list(b)) for b in p2['outs'])
     finals = [a for a in p2['aggs'] if isinstance(a, transform.AggregateResult)]
-    if got2 != want2 or len(finals) != 1 or finals[0].agg_result != p2['ref_agg']:
+    # The property promises every output batch AT LEAST once (a shard that is retried
+    # - e.g. after a real-time deadline under load - delivers its batches again) and
+    # the aggregate exactly once: repeated batches are not a difference.
+    if (set(got2) != set(want2) or len(finals) != 1
+        or finals[0].agg_result != p2['ref_agg']):
       ctx.violation('second_run_differs', case,
                     {'worker': p2['worker'], 'n_got': len(got2), 'n_want': len(want2),
                      'aggs': repr(p2['aggs'])[:200], 'want_agg': repr(p2['ref_agg'])},
@@ -868,14 +982,23 @@ def run_sharded_ignore_error(ctx, runner, case):
     pool.wait_until_alive(deadline_secs=HB_THRESHOLD, minimum_num_workers=W)
     recs = c16lib.records(case['n'], case['rec'])
     bad = recs[case['bad_record']]
-    ops = [['affine', {'a': 3, 'b': 1}], ['failing', {'value': 3 * bad[0] + 1}]]
+    kw = {'value': 3 * bad[0] + 1}
+    run_kwargs = {}
+    if case.get('exc') is not None:
+      kw['exc'] = case['exc']
+      # (no small retry budget here: the exception of an operator never travels as
+      # an object - the library replaces it by ValueError('Failed to call ...') - and
+      # the recorded finding of this driver retries legitimately)
+      if case.get('retry_threshold') is not None:
+        run_kwargs['retry_threshold'] = case['retry_threshold']
+    ops = [['affine', {'a': 3, 'b': 1}], ['failing', kw]]
     spec = {'n': case['n'], 'rec': case['rec'], 'ops': ops, 'agg': 'sum', 'fused': True,
             'num_threads': 0}
     rq, outs = queue.SimpleQueue(), []
 
     def go():
       for b in orchestrate.sharded_pipelines_as_iterator(
-          pool, c06lib.define_pipeline, spec, num_shards=case['K'], result_queue=rq):
+          pool, c06lib.define_pipeline, spec, num_shards=case['K'], result_queue=rq, **run_kwargs):
         outs.append(b)
 
     finished, _, exc = runner.cwork.run_with_watchdog(go, 60)
@@ -908,11 +1031,16 @@ def judge_sharded_ignore_error(ctx, case, res):
   if res['acquired'] or res['locked']:
     ctx.violation('workers_not_released', case, {'acquired_by_pool': res['acquired'], 'locked': res['locked']},
                   mechanism='sharded_ignore_error:workers-not-released')
+  if case.get('exc') is not None:
+    ctx.count('app_error_family_cases')
   if exc is not None:
     text = c06lib.error_chain_text(exc)
     if 'All workers timeout' in text:
       ctx.inconclusive_case('library saw no alive worker (load)', case)
-    elif not any(m in text for m in (c06lib.APP_ERROR_MARK, 'op_failing')):
+    elif isinstance(exc, TimeoutError) and 'Too many Timeouts' in str(exc) and case.get('exc') is not None:
+      # the budget of these cases is small; which retries used it up is not observed here
+      ctx.inconclusive_case('sharded_ignore_error: the small retry budget was used up', case)
+    elif not any(m in text for m in (c06lib.APP_ERROR_MARK, 'op_failing', 'ParseError')):
       ctx.violation('driver_raised', case, {'error': text[:300]},
                     mechanism=f'sharded_ignore_error:raises:{type(exc).__name__}')
     return   # the application error surfaced: nothing is silently missing
@@ -1034,6 +1162,10 @@ def judge(ctx, case, res):
     app = case.get('app_error')
     if app is not None:
       ctx.count('app_error_cases')
+      if case.get('exc') is not None:
+        ctx.count('app_error_family_cases')
+      if driver == 'run':
+        ctx.count('run_app_error_cases')
     expected = [i for i in range(T) if i != app]
     if (exc is not None and driver == 'run' and not hit and not case.get('faults')
         and getattr(exc, 'code', 0) == 4):
@@ -1048,6 +1180,14 @@ def judge(ctx, case, res):
       if exc is None:
         ctx.violation('app_error_swallowed', case, {'delivered': ids},
                       mechanism=f'{driver}:app-error-swallowed')
+      elif case.get('exc') is not None:
+        # any member of the family: the error names / chains the original exception
+        from vlib import c06lib
+        chain = c06lib.error_chain_text(exc)
+        if not any(m in chain for m in c06lib.app_error_marks(case['exc'], f'task {app} failed')):
+          ctx.violation('app_error_wrong_exception', case, {'error': exc_text[:300]},
+                        mechanism=f'{driver}:app-error-other-exception:{type(exc).__name__}:'
+                        + c06lib.app_error_key(case['exc']))
       elif f'task {app} failed' not in str(exc) and f'task {app} failed' not in str(getattr(exc, 'message', '')):
         ctx.violation('app_error_wrong_exception', case, {'error': exc_text[:300]},
                       mechanism=f'{driver}:app-error-other-exception:{type(exc).__name__}')
@@ -1090,8 +1230,14 @@ def judge(ctx, case, res):
                       {'missing': missing[:5], 'phantom': phantom[:5], 'hits': res['hits']},
                       mechanism=mech)
       if hit == 0 and sorted(got) != want:
-        ctx.violation('fault_free_duplicates', case, {'n_got': len(got), 'n_want': len(want)},
-                      mechanism='sharded:fault-free-duplicates')
+        if res.get('transport_deadlines'):
+          # No fault was injected, yet the stand-in transport ended a call with
+          # DEADLINE_EXCEEDED: its deadline is real time, the machine was too slow. The
+          # retry that follows may deliver batches again (allowed: 'at least once').
+          ctx.inconclusive_case('fault-free run hit a real-time deadline of the stand-in transport (load)', case)
+        else:
+          ctx.violation('fault_free_duplicates', case, {'n_got': len(got), 'n_want': len(want)},
+                        mechanism='sharded:fault-free-duplicates')
       if driver == 'sharded_late_death' and sorted(got) != want:
         # every shard had completed before the death: nothing may be re-run
         ctx.violation('completed_shard_rerun', case, {'n_got': len(got), 'n_want': len(want)},
@@ -1165,7 +1311,9 @@ def run_chunk(ctx, spec):
   if spec['tier'] == 'quick':
     # the enumerated sub-space is spread over seeds in the quick tier
     cases = [c for i, c in enumerate(cases) if (i + spec['rseed']) % 3 == 0]
-  cases += gen_cases(rng, spec['per_chunk'])
+  # (own generator for the exceptions of the application errors)
+  rng_exc = random.Random(spec['rseed'] * 1000003 + spec['chunk'] * 31 + 23)
+  cases += gen_cases(rng, spec['per_chunk'], rng_exc)
   for _ in range(2 if spec['tier'] == 'quick' else 10):
     # No call deadline: a worker that dies while holding a task is only noticed
     # through its stale heartbeat (the "worker disconnected" branch).
@@ -1203,6 +1351,25 @@ def run_chunk(ctx, spec):
     cases.append({'driver': 'iterate_abort', 'W': W, 'par': rng.choice([1, 1, 1, 2]),
                   'ibs': rng.randint(1, 2), 'K': K, 'n': n, 'rec': rec, 'fail': fail,
                   'delay': rng.choice([0.004, 0.008]), 'n2': rng.choice([4, 9]), 'faults': []})
+    if fail['kind'] == 'op':
+      fail['exc'] = draw_exc(rng_exc)
+      fail['site'] = rng_exc.choice(['op', 'source'])
+      cases[-1]['retry_threshold'] = rng_exc.randint(1, 5)
+  # One failing record per chunk whose exception is the member (chunk + seed) of the family:
+  # every member (and every value of its attribute `code`) occurs in every run.
+  from vlib import c06lib as _c06lib
+  for j in range(1 if spec['tier'] == 'quick' else 4):
+    W = 2
+    K = W + rng_exc.randint(0, 1)
+    rec = rng_exc.randint(1, 2)
+    n = rec * K * rng_exc.randint(3, 6)
+    member = _c06lib.EXC_FAMILY[(spec['chunk'] + spec['rseed'] + j * 3) % len(_c06lib.EXC_FAMILY)]
+    cases.append({'driver': 'iterate_abort', 'W': W, 'par': 1, 'ibs': rng_exc.randint(1, 3),
+                  'K': K, 'n': n, 'rec': rec,
+                  'fail': {'kind': 'op', 'site': 'source', 'value': rng_exc.randrange(n),
+                           'exc': dict(member)},
+                  'retry_threshold': rng_exc.randint(1, 4),
+                  'delay': 0.002, 'n2': 4, 'faults': []})
   for _ in range(1 if spec['tier'] == 'quick' else 8):
     n = rng.choice([40, 80, 150, 300])
     cases.append({'driver': 'interleaved_failure', 'W': rng.randint(1, 3), 'par': 1, 'n': n,
